@@ -46,9 +46,9 @@ def obligations(L, tier):
             if o.get("op") == "abs":
                 o["kind2"] = "abs"
                 obs.append(o)
-        nterms = 3 if tier == "quick" else 4
+        nterms = 4 if tier == "quick" else 5
         for k in range(nterms + 1):
-            for ln in (0, 1) if tier == "quick" or k > 2 else (0, 1, 2):
+            for ln in (0, 1) if k > 2 else (0, 1, 2):
                 if k == 0 and ln:
                     continue
                 obs.append(dict(id=f"{TY[order]} sum of {k} terms with {ln} names each", kind="sum", order=order, k=k, ln=ln))
@@ -289,7 +289,7 @@ K_ORD = ["c19_ord_ieee_dual", "c19_ord_ieee_dual2", "c19_ord_ieee_number"]
 
 def run(tier, seed):
     ev = C.Evidence(PID, tier, seed, "model_checking")
-    L = 2 if tier == "quick" else 3
+    L = 3
     obs = obligations(L, tier)
     results = run_pool(obs, worker, seed=seed)
     tot = summarize(results)
@@ -308,7 +308,7 @@ def run(tier, seed):
     standard_finish(PID, ev, obs, results, tot, role_of,
                     bounds={"ordering_ieee": "Kani/CBMC, bit-precise: every pair of 64-bit patterns (NaNs, +-0, infinities, subnormals) for Dual/Dual, Dual/float, float/Dual, the same for Dual2, and every permitted kind pairing of the Number container; numbers without variables (the clause is about the value only)",
                             "names_per_operand": f"0..{L} (Dual), 0..{min(L, 2)} (Dual2), symbolic", "values": "symbolic reals, both signs; divisor != 0 for %",
-                            "sum_terms": "0..3 quick / 0..4 thorough", "outside": "NaN/inf/rounding for everything except the ordering clause; longer sums"},
+                            "sum_terms": "0..4 quick / 0..5 thorough", "outside": "NaN/inf/rounding for everything except the ordering clause; longer sums"},
                     rule="obligation = (impl body or trait function, operand sizes); explored into feasible paths; one validity query per path",
                     assumptions=["reals instead of IEEE floats (M part); K part: std::hash::RandomState::new stubbed with a fixed key (no clause depends on hash values)", "trunc(x) modelled as the integer part toward zero", "mirsym library models"])
 
